@@ -25,7 +25,7 @@ def cases(tier, seed):
     rng = T.Rng(seed * 1000003 + 3)
     out = []
     layouts = [(1, 1), (1, 2), (1, 4), (2, 2), (2, 3), (3, 2)] if tier == "quick" else T.LAYOUTS_QUICK + [(1, 2), (2, 4), (4, 2), (1, 8)]
-    reps = 2 if tier == "quick" else 12
+    reps = 3 if tier == "quick" else 16
     for _ in range(reps):
         for (N, P) in layouts:
             for routing in T.ROUTINGS:
